@@ -9,6 +9,7 @@ import (
 	"sync/atomic"
 
 	"github.com/jdillenkofer/pithos/internal/ioutils"
+	"github.com/jdillenkofer/pithos/internal/verifhook"
 )
 
 // ErrWriteInReadOnlyTransaction is returned by BeginTx when a writable
@@ -107,10 +108,18 @@ func (t *TxController) Commit(ctx context.Context) error {
 		return nil
 	}
 	for _, fn := range t.onPreCommit {
+		if hookErr := verifhook.Fault("tx.precommit", t); hookErr != nil {
+			_ = t.Rollback(ctx)
+			return hookErr
+		}
 		if hookErr := fn(ctx); hookErr != nil {
 			_ = t.Rollback(ctx)
 			return hookErr
 		}
+	}
+	if hookErr := verifhook.Fault("tx.sqlcommit", t); hookErr != nil {
+		_ = t.Rollback(ctx)
+		return hookErr
 	}
 	err := t.tx.Commit()
 	if err != nil {
@@ -118,7 +127,9 @@ func (t *TxController) Commit(ctx context.Context) error {
 		return err
 	}
 	t.finalized = true
+	verifhook.At("tx.committed", t)
 	for _, fn := range t.onAfterCommit {
+		verifhook.At("tx.aftercommit", t)
 		if hookErr := fn(ctx); hookErr != nil {
 			return hookErr
 		}
@@ -135,7 +146,9 @@ func (t *TxController) Rollback(ctx context.Context) error {
 		return err
 	}
 	t.finalized = true
+	verifhook.At("tx.rolledback", t)
 	for _, fn := range t.onRollback {
+		verifhook.At("tx.rollbackhook", t)
 		if hookErr := fn(ctx); hookErr != nil && err == nil {
 			err = hookErr
 		}
